@@ -48,6 +48,24 @@ func (t *Translator) TransformStreamingResponse(ctx context.Context, openaiStrea
 	streamErr := t.transformStreamingSync(ctx, openaiStream, w, rc, state)
 
 	if streamErr != nil {
+		if !state.messageStartSent {
+			// nothing has reached the client: withdraw the stream headers so the caller can still
+			// answer with an error status
+			w.Header().Del(constants.HeaderContentType)
+			w.Header().Del("Cache-Control")
+			w.Header().Del("Connection")
+			return streamErr
+		}
+		// the stream broke off after it began: tell the client in the stream, the way the
+		// Anthropic API reports a failure after a 200, and leave the message unclosed
+		_ = t.writeEvent(w, "error", map[string]interface{}{
+			"type": "error",
+			"error": map[string]interface{}{
+				"type":    "api_error",
+				"message": fmt.Sprintf("backend stream ended before the response was complete: %v", streamErr),
+			},
+		})
+		_ = rc.Flush()
 		return streamErr
 	}
 
